@@ -44,6 +44,7 @@ func runC06(c *core.Ctx) {
 	ruleBitAccumulatorReset(c, "C06-R15")
 	rulePredictorInDict(c, "C06-R16")
 	rulePoolPutOwnership(c, "C06-R17")
+	ruleASCII85PendingOutput(c, "C06-R18")
 	ruleAliasHygiene(c, [3]string{"C06-R12", "C06-R13", "C06-R14"}, "pdf/internal/filter/lzw", "pdf/internal/filter/predict", "pdf/internal/filter/runlength", "pdf/internal/filter/ccittfax", "pdf/internal/filter/ascii85", "pdf/internal/filter/asciihex")
 }
 
@@ -1217,5 +1218,100 @@ func rulePredictorInDict(c *core.Ctx, rule string) {
 				o.Fail("%s: for /Predictor %d the entry is %s, but the encoder %s a predictor for this value", c.Prog.Pos(store.AST.Pos()), p, map[bool]string{true: "written", false: "not written"}[reached], map[bool]string{true: "applies", false: "does not apply"}[want])
 			}
 		}
+	})
+}
+
+// ruleASCII85PendingOutput (C06-R18): the ASCII85 decoder produces up to four
+// bytes per group; what does not fit into the caller's buffer is kept in
+// `leftover` for the next Read.  Read must not report an error (the
+// end-of-data marker included) while such bytes are pending: a caller that
+// stops at io.EOF loses them, so the decoded data depends on the size of the
+// read buffer.  Every return of a possibly non-nil error in Read is either
+// guarded by "leftover is empty" or dominated by a deferred function that
+// clears the returned error while leftover is non-empty.
+func ruleASCII85PendingOutput(c *core.Ctx, rule string) {
+	const pk = "pdf/internal/filter/ascii85"
+	c.Check(rule, pk+".(*ascii85Reader).Read/pending", "no error is returned while decoded bytes are still pending in the leftover buffer", func(o *core.Ob) {
+		fn := c.Prog.Func(pk, "(*ascii85Reader).Read")
+		g := fn.Graph()
+		info := fn.Info()
+		mentionsLeftover := func(n ast.Node) bool {
+			found := false
+			ast.Inspect(n, func(m ast.Node) bool {
+				if sel, ok := m.(*ast.SelectorExpr); ok && sel.Sel.Name == "leftover" {
+					found = true
+				}
+				return true
+			})
+			return found
+		}
+		// masking defers: defer func() { if len(r.leftover) > 0 { err = nil } }()
+		var masks []*core.V
+		for _, v := range g.Vs {
+			ds, ok := v.AST.(*ast.DeferStmt)
+			if !ok {
+				continue
+			}
+			fl, ok := ds.Call.Fun.(*ast.FuncLit)
+			if !ok {
+				continue
+			}
+			masksErr := false
+			ast.Inspect(fl.Body, func(m ast.Node) bool {
+				is, ok := m.(*ast.IfStmt)
+				if !ok || !mentionsLeftover(is.Cond) {
+					return true
+				}
+				for _, st := range is.Body.List {
+					if as, ok := st.(*ast.AssignStmt); ok && len(as.Rhs) == 1 && core.IsNil(info, as.Rhs[0]) {
+						if obj := core.ObjOf(info, as.Lhs[0]); obj != nil && core.IsErrorType(obj.Type()) {
+							masksErr = true
+						}
+					}
+				}
+				return true
+			})
+			if masksErr {
+				masks = append(masks, v)
+				o.At(fn.Site(ds, "pending output masks the error"))
+			}
+		}
+		n := 0
+		for _, r := range g.Returns() {
+			rs := r.AST.(*ast.ReturnStmt)
+			var errExpr ast.Expr
+			if len(rs.Results) == 2 {
+				errExpr = rs.Results[1]
+			}
+			if errExpr != nil && core.IsNil(info, errExpr) {
+				continue
+			}
+			n++
+			o.Count(1)
+			masked := false
+			for _, mv := range masks {
+				if g.Dominates(mv, r) {
+					masked = true
+				}
+			}
+			if masked {
+				continue
+			}
+			guarded := g.GuardedBy(r, func(a core.Atom) bool {
+				if !mentionsLeftover(a.Expr) {
+					return false
+				}
+				cmp, ok := a.AsCmp()
+				if !ok {
+					return false
+				}
+				k, isK := core.IntConst(info, cmp.R)
+				return isK && k == 0 && (cmp.Op == token.EQL || cmp.Op == token.LEQ)
+			})
+			if !guarded {
+				o.FailAt(fn.Site(rs, ""), "%s: an error (possibly io.EOF) can be returned here while decoded bytes are still waiting in the leftover buffer; with a small read buffer the end of the data is lost", c.Prog.Pos(rs.Pos()))
+			}
+		}
+		o.Require(n >= 3, "error returns of Read not found")
 	})
 }
